@@ -5,6 +5,8 @@ Decides:
       dominates the import that turns the file into INSERT statements;
  (R2) validate_json_columns collects the keys of EVERY object of the array (a loop over the array contains the keys()
       call; no constant-index access to the array), because import_json uses each object's own keys as column list;
+ (R2') that loop is left only when the array is exhausted or with an error: no early exit from which the function can still
+      report success (a `break` once "enough" keys were seen leaves the remaining objects unvalidated);
  (R3) import_json renders a value by its JSON type: an exhaustive match over serde_json::Value; only the Null arm yields
       the unquoted NULL; the String arm doubles the quote and is wrapped in quotes; no comparison with the text "NULL"
       decides quoting;  import_csv doubles the quote and wraps every field in quotes;
@@ -13,6 +15,12 @@ Decides:
       import_csv and validate_csv_columns read records through that reader (not lines()/split(','));
  (R5) the exported cell text is the value's text: the rows handed to export are not rendered with Debug formatting and
       the header carries column names (not a constant).
+ (R6) the CSV reader's per-field flags are reset at every field terminator: on each path from a separator test (',' / CR /
+      LF on the not-in-quotes side) back to the loop head, every flag that the loop sets to true is either assigned
+      false or known false from the branch condition (a flag that survives the end of a record changes how the first
+      field of the next record is read);
+ (R7) the set of unquoted (numeric / boolean) columns handed to import_csv is keyed like it is looked up: the closure that
+      builds the set applies the same case normaliser to the column name as the `contains` test in import_csv.
 Does NOT decide that INSERT coercion reproduces each value, nor file-system behaviour."""
 import re
 from ..engine.facts import callee_name
@@ -96,6 +104,39 @@ def run(ctx):
     if not in_loop or const_idx:
         ctx.finding('R2/first-object-only', 'validate_json_columns looks at a fixed element of the array (not at every object), but import_json '
                     'builds the column list of each INSERT from that object\'s own keys: a later object can carry SQL text in a key', vj.loc)
+
+    # R2': no early successful exit from the key-collecting loop
+    from ..engine.paths import loop_headers, ok_exit_reachable
+    from . import shared
+    gv = cfg(vj)
+    lhv = loop_headers(vj)
+    nloops = 0
+    for h, (sw, none_t) in lhv.items():
+        body = shared._body(enc, h)
+        if not any(i in body for i, _t in keys_calls):
+            continue
+        if loop_of.get(keys_calls[0][0]) is None:
+            continue
+        # only the loop(s) ranging over the array itself (the inner loop ranges over one object's keys)
+        root = s.op(vj.blocks[h]['t']['args'][0])
+        if 'keys(' in root:
+            continue
+        nloops += 1
+        early = []
+        for b in body:
+            tb = vj.blocks[b]['t']
+            if tb['k'] not in ('switch', 'goto'):
+                continue
+            for x in gv.succ[b]:
+                if x in body or x == none_t or vj.blocks[x]['t'].get('cleanup') or vj.blocks[x]['t']['k'] in ('unreachable', 'resume'):
+                    continue
+                if ok_exit_reachable(vj, [x], set()) is not None:
+                    early.append(f'{vj.file}:{tb["l"]}')
+        ctx.instance(f'R2/loop@{nloops}', {'rule': 'C31.R2', 'array_loop': root[:80], 'early_successful_exits': early})
+        if early:
+            ctx.finding('R2/early-exit', 'validate_json_columns can leave the loop over the array before the last object and still succeed: the keys of '
+                        'the remaining objects are not validated, but import_json turns them into column lists', early[0])
+    ctx.require(nloops >= 1, 'validate_json_columns: loop over the array not found')
 
     # ------------------------------------------------------------------ R3
     ctx.rule('C31.R3', 'import_json: exhaustive match on serde_json::Value inside the value renderer; the String arm doubles quotes and formats '
@@ -236,6 +277,85 @@ def run(ctx):
         if not uses_reader or raw:
             ctx.finding(f'R4/{f_.nice.rsplit("::",1)[1]}/raw-split', f'{f_.nice} splits the file on raw line breaks / commas ({raw}) instead of reading RFC 4180 '
                         'records: quoted commas and line breaks break the import', f_.loc)
+
+    # ------------------------------------------------------------------ R6 per-field flags of the CSV reader
+    ctx.rule('C31.R6', 'parse_csv_records: on every path from a separator test (comma, CR, LF) back to the loop head each flag that the loop sets '
+             'to true is assigned false or is known false from the branch condition')
+    rd = ctx.fn(CLI + 'data_io::parse_csv_records')
+    grd = cfg(rd)
+    lhr = loop_headers(rd)
+    ctx.require(len(lhr) == 1, f'parse_csv_records: expected one loop, found {len(lhr)}')
+    hdr = list(lhr)[0]
+    encr = Encoder(prog, rd)
+    bodyr = shared._body(encr, hdr)
+
+    def bool_assigns(val):
+        out = {}
+        for bi in bodyr:
+            for st in rd.blocks[bi]['s']:
+                if 'd' in st and not st['d'][1] and st['v']['r'] == 'use' and isinstance(st['v']['a'], dict) and st['v']['a'].get('t') == 'bool' \
+                        and st['v']['a'].get('k') == 'i' and st['v']['a'].get('v') == val and st['d'][0] in rd.names:
+                    out.setdefault(st['d'][0], set()).add(bi)
+        return out
+    set_true = bool_assigns(1); set_false = bool_assigns(0)
+    ctx.floor('C31.R6 flags of the CSV reader', len(set_true), 2)
+    ct = char_tests(rd)
+    seps = [(c, sw, tt) for c in (44, 10, 13) for (sw, tt) in ct.get(c, [])]
+    ctx.floor('C31.R6 separator tests', len(seps), 3)
+    defs_rd = defs_of(rd)
+    for c, sw, tt in seps:
+        # switches on a flag itself that decide whether the branch runs, with the value on the side of the branch
+        known = {}
+        for sblk in shared.deciding_switches(rd, tt):
+            tsw = rd.blocks[sblk]['t']
+            l, _nm = shared.named_root(rd, defs_rd, tsw['on'])
+            if l is None:
+                continue
+            vals = set()
+            for v, tb in tsw['targets']:
+                if tb == tt or tt in shared._forward_reach(grd, tb):
+                    vals.add(int(v))
+            if tsw.get('else') is not None and (tsw['else'] == tt or tt in shared._forward_reach(grd, tsw['else'])):
+                vals.add('else')
+            known[l] = vals
+        for fl in sorted(set_true):
+            name = rd.names[fl]
+            known_false = known.get(fl) == {0}
+            reach = grd.reach_from([tt], removed=set_false.get(fl, set()) | {hdr})
+            leaks = any(hdr in grd.succ[b] for b in reach)
+            ctx.instance(f'R6/{name}/{c}@{sw}', {'rule': 'C31.R6', 'flag': name, 'separator': chr(c), 'known_false_at_branch': known_false, 'reset_on_every_path': not leaks})
+            if leaks and not known_false:
+                ctx.finding(f'R6/{name}/{ {44: "comma", 10: "LF", 13: "CR"}[c] }', f'parse_csv_records: after the separator {chr(c)!r} the flag {name} can reach the next '
+                            'character still set: the next field is read as if the previous one\'s state applied (a quote at the start of the next field '
+                            'is taken literally / an empty last line is kept)', f'{rd.file}:{rd.blocks[sw]["t"]["l"]}')
+
+    # ------------------------------------------------------------------ R7 unquoted-column set: insertion key == lookup key
+    ctx.rule('C31.R7', 'the column names put into the unquoted-columns set (handle_copy) and the name looked up in it (import_csv) go through the same '
+             'case normaliser')
+    ic = ctx.fn(CLI + 'data_io::DataIO::import_csv')
+    look = []
+    for c2 in [ic] + [x for x in prog.fns.values() if x.is_closure() and x.nice.startswith(ic.nice + '::')]:
+        s2 = Sym(c2)
+        for i, t in c2.calls():
+            if re.search(r'HashSet.*::contains', callee_name(t) or '') and 'unquoted_columns' in s2.op(t['args'][0]):
+                look.append(s2.op(t['args'][1]))
+    ctx.require(look, 'import_csv: lookup in unquoted_columns not found')
+    ins = []
+    for c2 in [x for x in prog.fns.values() if x.is_closure() and x.nice.startswith(hc.nice + '::')]:
+        if c2.locals[0] != 'alloc::string::String' or len(c2.locals) < 3 or 'ColumnSchema' not in c2.locals[2]:
+            continue
+        s2 = Sym(c2)
+        for b in c2.blocks:
+            if b['t']['k'] == 'return' and not b['t'].get('cleanup'):
+                ins.append(s2.local(0))
+    ctx.require(ins, 'handle_copy: closure that maps a column to its name in the unquoted set not found')
+
+    def normaliser(e):
+        return tuple(re.findall(r'\b(upper|lower|to_uppercase|to_lowercase|to_ascii_uppercase|to_ascii_lowercase|trim)\(', e))
+    ctx.instance('R7/unquoted-set', {'rule': 'C31.R7', 'inserted_as': ins, 'looked_up_as': look})
+    if {normaliser(e) for e in ins} != {normaliser(e) for e in look}:
+        ctx.finding('R7/unquoted-set', f'the unquoted-columns set is filled with {ins} but queried with {look}: numeric columns whose name is not in the '
+                    'other case are quoted (and rejected by INSERT) or the other way round', hc.loc)
 
     # ------------------------------------------------------------------ R5
     ctx.rule('C31.R5', 'SqlExecutor::execute (producer of the QueryResult that \\copy TO writes) renders cell values without Debug formatting and '
